@@ -26,6 +26,7 @@ import (
 	"io"
 	"math/rand"
 	"net/http"
+	"os"
 	"runtime"
 	"strconv"
 	"strings"
@@ -271,12 +272,56 @@ type c22Case struct {
 	AE        string       `json:"ae"`
 	AEPresent bool         `json:"aePresent"`
 	Wrapper   string       `json:"wrapper"`
+	Setter    string       `json:"setter"`
 	Kind      string       `json:"kind"`
 	Size      int          `json:"size"`
 	CType     string       `json:"ctype"`
 	Preset    string       `json:"preset"`
 	Allowed   []c22Allowed `json:"allowed"`
 	Hint      bool         `json:"hint"`
+}
+
+// c22SetBody hands body to the response through the named body setter of the API.
+func c22SetBody(ctx *RequestCtx, setter string, body []byte, seed int) {
+	switch setter {
+	case "SetBody":
+		ctx.SetBody(body)
+	case "SetBodyString":
+		ctx.SetBodyString(string(body))
+	case "AppendBody":
+		ctx.Response.AppendBody(body[:len(body)/2])
+		ctx.Response.AppendBody(body[len(body)/2:])
+	case "SetBodyRaw":
+		ctx.Response.SetBodyRaw(body) // body is a fresh slice nobody else touches
+	case "Write":
+		ctx.Write(body[:len(body)/3])
+		ctx.Write(body[len(body)/3:])
+	case "WriteString":
+		ctx.WriteString(string(body))
+	case "SetBodyStream":
+		declared := -1
+		if seed%2 == 0 {
+			declared = len(body)
+		}
+		ctx.SetBodyStream(&c22SlowReader{b: body, step: 1 + seed%4096}, declared)
+	case "SetBodyStreamWriter":
+		step := 1 + seed%4096
+		ctx.SetBodyStreamWriter(func(w *bufio.Writer) {
+			for b := body; len(b) > 0; {
+				n := step
+				if n > len(b) {
+					n = len(b)
+				}
+				w.Write(b[:n])
+				b = b[n:]
+				if seed%3 == 0 {
+					w.Flush()
+				}
+			}
+		})
+	default:
+		panic("c22: unknown body setter " + setter)
+	}
 }
 
 type c22SlowReader struct {
@@ -315,16 +360,7 @@ func TestVerifC22B_Negotiation(t *testing.T) {
 		if p := ctx.Request.Header.Peek("X-Preset"); len(p) > 0 {
 			ctx.Response.Header.SetContentEncodingBytes(p)
 		}
-		switch string(ctx.Request.Header.Peek("X-Kind")) {
-		case "buffered":
-			ctx.SetBody(body)
-		case "stream":
-			declared := -1
-			if seed%2 == 0 {
-				declared = n
-			}
-			ctx.SetBodyStream(&c22SlowReader{b: body, step: 1 + int(seed%4096)}, declared)
-		}
+		c22SetBody(ctx, string(ctx.Request.Header.Peek("X-Setter")), body, int(seed))
 	}
 	var hmu sync.Mutex
 	wrapped := map[string]RequestHandler{}
@@ -367,7 +403,7 @@ func TestVerifC22B_Negotiation(t *testing.T) {
 		if c.AEPresent {
 			fmt.Fprintf(&sb, "Accept-Encoding: %s\r\n", c.AE)
 		}
-		fmt.Fprintf(&sb, "X-Wrapper: %s\r\nX-L1: %d\r\nX-L2: %d\r\nX-Kind: %s\r\nX-Size: %d\r\nX-Seed: %d\r\nX-CT: %s\r\n", c.Wrapper, l1, l2, c.Kind, c.Size, seed, c.CType)
+		fmt.Fprintf(&sb, "X-Wrapper: %s\r\nX-L1: %d\r\nX-L2: %d\r\nX-Setter: %s\r\nX-Size: %d\r\nX-Seed: %d\r\nX-CT: %s\r\n", c.Wrapper, l1, l2, c.Setter, c.Size, seed, c.CType)
 		if c.Preset != "" {
 			fmt.Fprintf(&sb, "X-Preset: %s\r\n", c.Preset)
 		}
@@ -387,8 +423,8 @@ func TestVerifC22B_Negotiation(t *testing.T) {
 		}
 		evals++
 		want := c22Body(int64(seed), c.Size)
-		shape := fmt.Sprintf("%s|%s|size=%d|%s|preset=%s", c.Wrapper, c.Kind, c.Size, c.CType, c.Preset)
-		caseRec := vfRec{"ae": c.AE, "wrapper": c.Wrapper, "kind": c.Kind, "size": c.Size, "ctype": c.CType, "preset": c.Preset, "l1": l1, "l2": l2, "seed": seed}
+		shape := fmt.Sprintf("%s|%s|size=%d|%s|preset=%s", c.Wrapper, c.Setter, c.Size, c.CType, c.Preset)
+		caseRec := vfRec{"ae": c.AE, "wrapper": c.Wrapper, "setter": c.Setter, "size": c.Size, "ctype": c.CType, "preset": c.Preset, "l1": l1, "l2": l2, "seed": seed}
 		resp, err := http.ReadResponse(bufio.NewReader(bytes.NewReader(all)), &http.Request{Method: "GET"})
 		if err != nil {
 			vfViol("negotiation:unparsable|"+shape, fmt.Sprintf("Accept-Encoding %q: response cannot be parsed: %v", c.AE, err), caseRec)
@@ -463,9 +499,13 @@ func TestVerifC22B_Negotiation(t *testing.T) {
 			if w == "std" && e == "br" {
 				continue
 			}
-			for _, k := range []string{"buffered", "stream"} {
+			setters := []string{"SetBody", "SetBodyRaw", "SetBodyStream", "SetBodyStreamWriter"}
+			if vfQuick() {
+				setters = []string{"SetBodyRaw", "SetBodyStream"}
+			}
+			for _, k := range setters {
 				i++
-				run(c22Case{AE: e, AEPresent: true, Wrapper: w, Kind: k, Size: big, CType: "text/plain", Hint: true,
+				run(c22Case{AE: e, AEPresent: true, Wrapper: w, Setter: k, Size: big, CType: "text/plain", Hint: true,
 					Allowed: []c22Allowed{{Enc: "", Passthrough: true}, {Enc: e, Vary: true}}}, 1000+i)
 			}
 		}
@@ -628,4 +668,149 @@ func TestVerifC22C_FaultSeq(t *testing.T) {
 		}
 	}
 	vfStat(evals, nontriv, vfRec{"faultseq_cases": evals})
+}
+
+// ---------------------------------------------------------------------------------------
+// TestVerifC22D_Histories (B1): every history printed by specs/util/CompressPoolsGen.tla -- a
+// sequence of calls (coding, level index, entry point) on one level index, i.e. on writer pools
+// that sit at the same index of the per-coding pool tables -- is replayed at GOMAXPROCS(1), so
+// a writer released by one call is the one the next call of that pool gets.  Every output is
+// decoded with the independent decoder of the coding it is DECLARED with (the function called,
+// or the response's Content-Encoding) and must give back the call's own input.
+
+type c22HCall struct {
+	Coding string `json:"coding"`
+	Idx    int    `json:"idx"`
+	Level  int    `json:"level"`
+	Entry  string `json:"entry"`
+}
+
+type c22History struct {
+	Calls []c22HCall `json:"calls"`
+	Outs  []string   `json:"outs"`
+}
+
+func c22Sniff(b, want []byte) string {
+	for _, e := range []string{"gzip", "deflate", "br", "zstd"} {
+		if d, err := c22Decode(e, b); err == nil && bytes.Equal(d, want) {
+			return e
+		}
+	}
+	if bytes.Equal(b, want) {
+		return "identity"
+	}
+	return "none"
+}
+
+func TestVerifC22D_Histories(t *testing.T) {
+	vfOpen(t)
+	defer vfDone()
+	prev := runtime.GOMAXPROCS(1)
+	defer runtime.GOMAXPROCS(prev)
+	inner := func(ctx *RequestCtx) {
+		seed, _ := ParseUint(ctx.Request.Header.Peek("X-Seed"))
+		ctx.Response.Header.SetContentType("text/plain")
+		ctx.SetBodyStream(&c22SlowReader{b: c22Body(int64(seed), 1500), step: 700}, -1)
+	}
+	var hmu sync.Mutex
+	wrapped := map[string]RequestHandler{}
+	srv := &Server{Logger: &c22NullLogger{}, Handler: func(ctx *RequestCtx) {
+		coding := string(ctx.Request.Header.Peek("Accept-Encoding"))
+		level, _ := strconv.Atoi(string(ctx.Request.Header.Peek("X-Level")))
+		k := fmt.Sprintf("%s/%d", coding, level)
+		hmu.Lock()
+		h, ok := wrapped[k]
+		if !ok {
+			if coding == "br" {
+				h = CompressHandlerBrotliLevel(inner, level, CompressDefaultCompression)
+			} else {
+				h = CompressHandlerLevel(inner, level)
+			}
+			wrapped[k] = h
+		}
+		hmu.Unlock()
+		h(ctx)
+	}}
+	ln := fasthttputil.NewInmemoryListener()
+	var wg sync.WaitGroup
+	wg.Add(1)
+	go func() { defer wg.Done(); srv.Serve(ln) }()
+	defer func() { ln.Close(); wg.Wait() }()
+	codec := map[string]*c22Codec{}
+	for i := range c22Codecs {
+		codec[c22Codecs[i].name] = &c22Codecs[i]
+	}
+	seen := map[string]int{}
+	evals, nontriv, ncalls := 0, 0, 0
+	seed := int64(900000)
+	vfEachLine(t, os.Getenv("VERIF_IN3"), func(line []byte) {
+		var h c22History
+		if err := json.Unmarshal(line, &h); err != nil {
+			vfInfra("bad history line: " + err.Error())
+			return
+		}
+		evals++
+		mixed := false
+		for j, c := range h.Calls {
+			if c.Coding != h.Calls[0].Coding {
+				mixed = true
+			}
+			cd := codec[c.Coding]
+			if cd == nil {
+				vfInfra("unknown coding " + c.Coding)
+				return
+			}
+			seed++
+			ncalls++
+			body := c22Body(seed, 1500)
+			var out []byte
+			declared := c.Coding
+			switch c.Entry {
+			case "append":
+				out = cd.append(nil, body, c.Level)
+			case "writer":
+				w := &c22PlainWriter{}
+				if n, err := cd.write(w, body, c.Level); err != nil || n != len(body) {
+					vfViol(fmt.Sprintf("history:%s:writer:call-failed", c.Coding), fmt.Sprintf("Write*Level returned (%d, %v) in history %+v", n, err, h.Calls), vfRec{"history": h.Calls, "call": j})
+					return
+				}
+				out = w.b
+			case "stream":
+				raw := fmt.Sprintf("GET /c22h HTTP/1.1\r\nHost: c22\r\nConnection: close\r\nAccept-Encoding: %s\r\nX-Level: %d\r\nX-Seed: %d\r\n\r\n", c.Coding, c.Level, seed)
+				all, err := c22Fetch(ln, raw, 0)
+				if err != nil {
+					vfInfra("history fetch: " + err.Error())
+					return
+				}
+				resp, err := http.ReadResponse(bufio.NewReader(bytes.NewReader(all)), &http.Request{Method: "GET"})
+				if err != nil {
+					vfViol(fmt.Sprintf("history:%s:stream:unparsable", c.Coding), fmt.Sprintf("call %d of history %+v: response cannot be parsed: %v", j, h.Calls, err), vfRec{"history": h.Calls, "call": j})
+					return
+				}
+				out, _ = io.ReadAll(resp.Body)
+				declared = resp.Header.Get("Content-Encoding")
+				if declared != c.Coding {
+					vfViol(fmt.Sprintf("history:%s:stream:declared-%q", c.Coding, declared), fmt.Sprintf("call %d of history %+v: Accept-Encoding %s answered with Content-Encoding %q", j, h.Calls, c.Coding, declared), vfRec{"history": h.Calls, "call": j})
+					return
+				}
+			default:
+				vfInfra("unknown entry " + c.Entry)
+				return
+			}
+			dec, derr := c22Decode(declared, out)
+			if derr != nil || !bytes.Equal(dec, body) {
+				key := fmt.Sprintf("history:%s:%s:output-not-in-declared-format", c.Coding, c.Entry)
+				seen[key]++
+				if seen[key] <= 3 {
+					vfViol(key, fmt.Sprintf("call %d of history %+v: output declared %s (%d bytes) decodes with the %s decoder to %d bytes, error %v; it is a valid encoding of the input in format %q (specification: %q)",
+						j, h.Calls, declared, len(out), declared, len(dec), derr, c22Sniff(out, body), h.Outs[j]), vfRec{"history": h.Calls, "call": j})
+				}
+				return
+			}
+		}
+		if mixed {
+			nontriv++
+		}
+	})
+	vfStat(evals, nontriv, vfRec{"histories": evals, "history_calls": ncalls})
 }
